@@ -101,6 +101,7 @@ pub struct Interp<'a> {
     pub model: BTreeMap<usize, Obj>,
     pub order: Vec<usize>,
     pub max_handle: &'a mut usize,
+    pub start_max: usize,
     pub cells: BTreeMap<String, u64>,
     pub feats: std::collections::BTreeSet<String>,
     pub skipped: BTreeMap<String, u64>,
@@ -129,6 +130,7 @@ impl<'a> Interp<'a> {
             disk_paths: vec![],
             model: BTreeMap::new(),
             order: vec![],
+            start_max: *max_handle,
             max_handle,
             cells: BTreeMap::new(),
             feats: Default::default(),
@@ -149,7 +151,9 @@ impl<'a> Interp<'a> {
     }
     /// announce the next C call (the supervisor attributes a death or a deadlock to the last line)
     pub fn announce(&self, api: &str, variant: &str, hc: &str) {
-        eprintln!("OP {} {} {} {}", self.opi, api, if variant.is_empty() { "-" } else { variant }, hc);
+        let line = format!("OP {} {} {} {}", self.opi, api, if variant.is_empty() { "-" } else { variant }, hc);
+        crate::guard::set_last_op(&line);
+        eprintln!("{line}");
     }
 
     pub fn note_handle(&mut self, v: usize) {
@@ -334,7 +338,23 @@ impl<'a> Interp<'a> {
                 }
             }
         }
+        self.sweep();
         Ok(())
+    }
+
+    /// defensive: close every handle value the library may have allocated during this history that the
+    /// model does not know (a handle leaked by a failed check must not be alive in the next history,
+    /// where a forged small integer could hit it)
+    pub fn sweep(&mut self) {
+        for v in self.start_max + 1..=*self.max_handle + 32 {
+            if !self.model.contains_key(&v) {
+                unsafe {
+                    (self.storm.SFileFindClose)(hval(v));
+                    (self.storm.SFileCloseFile)(hval(v));
+                    (self.storm.SFileCloseArchive)(hval(v));
+                }
+            }
+        }
     }
 
     pub fn result(&self, r: &R) -> Value {
